@@ -29,6 +29,8 @@ pub enum MutOp {
     Rm { path: Vec<String> },
     /// duplicate an array element `times` times (repetition limits: "not more than ten times")
     DupN { path: Vec<String>, times: usize },
+    /// repeat a whole array until it has about `target` elements (a large batch with the same findings in every part of it)
+    RepeatArray { path: Vec<String>, target: usize },
 }
 
 #[derive(Serialize, Deserialize, Clone, Debug, PartialEq)]
@@ -102,6 +104,9 @@ pub struct Spec {
     /// configuration: a tracing subscriber that wants every level is installed on the caller threads
     #[serde(default)]
     pub diag: bool,
+    /// configuration fault: (environment variable named in the library's source, value) set during the run
+    #[serde(default)]
+    pub env_fault: Option<(usize, usize)>,
 }
 
 pub struct C13;
@@ -192,6 +197,16 @@ pub fn apply_op(g: &mut Value, op: &MutOp) -> bool {
             }
             _ => false,
         },
+        MutOp::RepeatArray { path, target } => match get_mut(g, path) {
+            Some(Value::Array(a)) if !a.is_empty() && a.len() < *target => {
+                let base = a.clone();
+                while a.len() + base.len() <= (*target).min(160) {
+                    a.extend(base.iter().cloned());
+                }
+                true
+            }
+            _ => false,
+        },
         MutOp::DupN { path, times } => {
             let (par, last) = path.split_at(path.len().saturating_sub(1));
             let Some(i) = last.first().and_then(|s| s.parse::<usize>().ok()) else { return false };
@@ -229,13 +244,21 @@ pub fn apply_op(g: &mut Value, op: &MutOp) -> bool {
 }
 
 /// One rule-directed mutation proposal (typed by JSON key), as an explicit op.
-fn propose(g: &Value, donor: &Value, donor2: &Value, vocab: &[String], r: &mut Sm) -> Option<MutOp> {
+fn propose(g: &Value, donor: &Value, donor2: &Value, vocab: &[String], hot: &Option<Vec<String>>, r: &mut Sm) -> Option<MutOp> {
     let mut ls = vec![];
     leaves(&g["fields"], vec!["fields".into()], &mut ls);
     if ls.is_empty() {
         return None;
     }
     let s = |x: &&str| Value::String(x.to_string());
+    // amplify: the sequence element whose last mutation raised the error count is repeated, so that
+    // the same rule fires in many transactions (a dozen, or a batch of a hundred and more)
+    if let Some(h) = hot {
+        if r.chance(1, 4) && get(g, h).is_some() {
+            let times = if r.chance(1, 2) { 100 + r.below(30) } else { 8 + r.below(30) };
+            return Some(MutOp::DupN { path: h.clone(), times });
+        }
+    }
     match r.below(18) {
         16 | 17 => {
             // a list of coded elements (23E instruction codes and the like) replaced by 2–4 elements
@@ -995,6 +1018,7 @@ impl Engine for C13 {
             callers,
             ops,
             diag: w.chance(1, 3),
+            env_fault: if w.chance(1, 4) { Some((w.below(1000), w.below(1000))) } else { None },
         }
     }
 
@@ -1022,6 +1046,11 @@ impl Engine for C13 {
         let spec2 = spec.clone();
         let o2 = out.clone();
         let vocabs: Vec<Vec<String>> = scs.iter().map(|(sc, _, _)| env.vocab.get(&sc.mt).cloned().unwrap_or_default()).collect();
+        let env_set = apply_env_fault(env, spec.env_fault);
+        if env_set.is_some() {
+            out.count("fault.env.variable_named_in_source_set", 1);
+        }
+        let o2 = out.clone();
         let res = on_fresh_thread(move || {
             let mut out = o2;
             let _a = seam::attach(&ctx2);
@@ -1059,12 +1088,13 @@ impl Engine for C13 {
                     }
                     MutPlan::Climb { seed, target, attempts } => {
                         let mut r = Sm(*seed);
+                        let mut hot: Option<Vec<String>> = None;
                         let mut cur = build(&sc.mt, &g).and_then(|(_, p)| nerr(&p)).unwrap_or(0);
                         for _ in 0..*attempts {
                             if cur >= *target {
                                 break;
                             }
-                            let Some(op) = propose(&g, &donor, &donor2, &vocabs[k], &mut r) else { continue };
+                            let Some(op) = propose(&g, &donor, &donor2, &vocabs[k], &hot, &mut r) else { continue };
                             let saved = g.clone();
                             if !apply_op(&mut g, &op) || g == saved {
                                 g = saved;
@@ -1073,6 +1103,13 @@ impl Engine for C13 {
                             match build(&sc.mt, &g).and_then(|(_, p)| nerr(&p)) {
                                 Some(n) if n >= cur => {
                                     if n > cur || r.chance(1, 3) {
+                                        if n > cur {
+                                            // remember the sequence element (fields/#/i) this mutation touched, if any
+                                            let path: &Vec<String> = match &op {
+                                                MutOp::Set { path, .. } | MutOp::Del { path } | MutOp::Put { path, .. } | MutOp::Dup { path } | MutOp::Rm { path } | MutOp::DupN { path, .. } | MutOp::RepeatArray { path, .. } => path,
+                                            };
+                                            hot = if path.len() >= 3 && path[1] == "#" { Some(path[..3].to_vec()) } else { hot };
+                                        }
                                         accepted.push(op);
                                         cur = n;
                                     } else {
@@ -1211,6 +1248,7 @@ impl Engine for C13 {
                 (out, None)
             }
         };
+        clear_env_fault(env_set);
         out.absorb_ctx(&ctx);
         let shape: Vec<String> = spec.ops.iter().map(|o| format!("{}{:?}{}", o.caller, o.kind, o.subject)).collect();
         out.shape_digest = fnv_str(&format!("{}|{}", spec.callers, shape.join(" ")));
@@ -1253,6 +1291,11 @@ impl Engine for C13 {
             s.diag = false;
             v.push(s);
         }
+        if spec.env_fault.is_some() {
+            let mut s = spec.clone();
+            s.env_fault = None;
+            v.push(s);
+        }
         let plain = ClockCfg::plain();
         if spec.clock != plain {
             let mut s = spec.clone();
@@ -1290,6 +1333,20 @@ impl Engine for C13 {
             }
         }
         v
+    }
+
+    fn amplify(spec: &Spec) -> Option<Spec> {
+        // the recorded subject as a large batch: its sequence repeated to about 70–130 elements
+        let mut s = spec.clone();
+        let mut any = false;
+        for sub in s.subjects.iter_mut() {
+            if let MutPlan::Explicit(ops) = &mut sub.plan {
+                ops.push(MutOp::RepeatArray { path: vec!["fields".into(), "#".into()], target: 70 + (spec.run_seed % 60) as usize });
+                any = true;
+            }
+        }
+        s.run_seed ^= 0xA5A5;
+        if any { Some(s) } else { None }
     }
 
     fn describe(spec: &Spec) -> Value {
